@@ -233,4 +233,33 @@ theorem gen_route_clean (evs : List MEv) (hev : ∀ e ∈ evs, evTypeIn genPacks
     ∃ outs, runM genRouting evs (fun _ => []) = some outs ∧ ∀ out ∈ outs, out.1 ∈ genPacks ∧ CleanOut out :=
   route_clean genRouting genPacks gen_names_nodup gen_routing_same gen_routing_inj gen_clear_total evs hev
 
+/-! ### no hidden package-level state (what the per-call theorems need to describe concurrent use)
+
+The round-trip, numtext and masking theorems are statements about one call.  That they describe
+every call of a process — one goroutine per transaction, all writing, reading and processing packs
+at the same time — needs the code to keep no mutable package-level state besides the pools
+(`sync.Pool` is safe for concurrent use by its contract).  Regenerated facts (scan of lang/pack/udp,
+util/stringutil, util/paramtext, util/urlutil, io): -/
+
+/-- the only package-level variables are the 19 pools and stringutil's compiled `linuxPattern` -/
+theorem pkg_vars :
+    Gen.pkgVars.map (·.1) = ["lang/pack/udp", "util/stringutil", "util/paramtext", "util/urlutil", "io"] ∧
+    Gen.pkgVars.all (fun pv =>
+      if pv.1 == "lang/pack/udp" then
+        pv.2.all (fun v => (allPacks.map (·.pool)).contains v) && (allPacks.map (·.pool)).all (fun v => pv.2.contains v) &&
+          pv.2.length == allPacks.length
+      else if pv.1 == "util/stringutil" then pv.2 == ["linuxPattern"]
+      else pv.2.isEmpty) = true := by
+  decide
+
+/-- no function writes, slices, takes the address of, or hands to another function a package-level
+    variable; the only uses other than reads are method calls on a pool in CreatePack / ClosePack and on
+    the compiled pattern in EscapeSpace -/
+theorem no_package_state_written :
+    Gen.stateRefs.all (fun r =>
+      r.2.2.1 == "r" ||
+      (r.2.2.1 == "m" && r.1 == "lang/pack/udp" && (r.2.1 == "CreatePack" || r.2.1 == "ClosePack") &&
+        (allPacks.map (·.pool)).contains r.2.2.2) ||
+      (r == ("util/stringutil", "EscapeSpace", "m", "linuxPattern"))) = true := by decide
+
 end C07Gen
